@@ -50,6 +50,10 @@ pub struct GenCfg {
     pub min_chunk: usize,
     /// adaptor kinds: pull 0..len elements before adapting
     pub pre_pulls: bool,
+    /// one thread (not the last) may end with an `UnwindPull` operation instead of running to its end
+    pub unwind_pull: bool,
+    /// ranges: occasionally empty / inverted ranges and ranges in the upper half of usize
+    pub odd_ranges: bool,
 }
 
 impl GenCfg {
@@ -87,6 +91,8 @@ impl GenCfg {
             huge_chunks: false,
             min_chunk: 1,
             pre_pulls: false,
+            unwind_pull: false,
+            odd_ranges: true,
         }
     }
 }
@@ -394,6 +400,34 @@ pub fn case_strategy(cfg: &GenCfg) -> BoxedStrategy<Case> {
         .boxed()
 }
 
+fn range_start_of(kind: Kind, raw: &RawCase, cfg: &GenCfg, len: usize) -> usize {
+    if !kind.is_range() {
+        return 0;
+    }
+    let base = scale(raw.range_start, 0, 1000);
+    if !cfg.odd_ranges {
+        return base;
+    }
+    match raw.vseed % 16 {
+        // upper half of usize: start + position arithmetic must not overflow
+        13 => usize::MAX / 2 + base,
+        14 => usize::MAX - len - (base % 7),
+        _ => base,
+    }
+}
+
+fn range_end_of(kind: Kind, raw: &RawCase, cfg: &GenCfg, _len: usize) -> Option<usize> {
+    if !kind.is_range() || !cfg.odd_ranges {
+        return None;
+    }
+    let start = scale(raw.range_start, 0, 1000);
+    match raw.vseed % 16 {
+        // inverted range: an ordinary empty source
+        15 => Some(start.saturating_sub(1 + (raw.vseed as usize / 16) % 5)),
+        _ => None,
+    }
+}
+
 fn build_case(raw: &RawCase, cfg: &GenCfg) -> Case {
     let kind = cfg.kinds[raw.kind];
     let mut len = scale(raw.len, 0, cfg.max_len);
@@ -456,6 +490,13 @@ fn build_case(raw: &RawCase, cfg: &GenCfg) -> Case {
             threads[i % nt].push(resolve(o, len, cfg));
         }
     }
+    if cfg.unwind_pull && threads.len() >= 2 && raw.extra_cap & 2 == 2 {
+        // thread 0 panics in user code at a generated point and keeps pulling while it unwinds
+        let t = &mut threads[0];
+        let cut = scale(raw.range_start, 0, t.len().saturating_sub(1));
+        t.truncate(cut);
+        t.push(Op::UnwindPull { k: 1 + (raw.vseed as usize % 3) });
+    }
     let sched = expand_sched(&raw.sched, cfg.sched_len);
     let freeze = raw.freeze.map(|(t, k)| {
         (
@@ -487,8 +528,8 @@ fn build_case(raw: &RawCase, cfg: &GenCfg) -> Case {
         hint: cfg.hints[raw.hint],
         layout,
         len,
-        range_start: if kind.is_range() { scale(raw.range_start, 0, 1000) } else { 0 },
-        range_end: None,
+        range_start: range_start_of(kind, raw, cfg, len),
+        range_end: range_end_of(kind, raw, cfg, len),
         extra_cap: if cfg.extra_cap { (raw.extra_cap % 8) as usize } else { 0 },
         pre: if cfg.pre_pulls && kind.adaptor() && raw.extra_cap & 1 == 1 { scale(raw.range_start, 0, len) } else { 0 },
         vseed: raw.vseed,
